@@ -193,7 +193,7 @@ def pytorch_stft_frame_computer(
         idx = torch.arange(-pad_left, sig_len + pad_right, device=sig.device)
         idx = idx % (2 * sig_len)
         sig = sig[torch.where(idx < sig_len, idx, 2 * sig_len - 1 - idx)]
-    sig = sig.as_strided((num_frames, frame_length), (frame_shift, 1))
+    sig = sig.contiguous().as_strided((num_frames, frame_length), (frame_shift, 1))
     y: List[torch.Tensor] = []
     if include_energy:
         energy = torch.linalg.norm(sig, 2, 1) / math.sqrt(frame_length)
